@@ -23,6 +23,7 @@ class TalCheck(CheckBase):
     level = "fault_enumeration"
     gen_opts: dict = {}
     plans_per_template = 40
+    hold_exceptions = False
 
     def warmup(self) -> None:
         import_chameleon()
@@ -128,8 +129,16 @@ class TalCheck(CheckBase):
         nontrivial = []
         cover: set[str] = set()
         stats = {"fired": {}, "plans": 0, "probe_calls": 0}
+        held: list = []       # exceptions kept alive across later renders
         for pi, (plan, hcfg) in enumerate(plans):
             r = run_real(template, tmpl, plan, hcfg)
+            if r["raise"] is not None and self.hold_exceptions and \
+                    len(held) < 80 and isinstance(r["raise"][1], Exception):
+                try:
+                    held.append((pi, plan, hcfg, r["raise"][1],
+                                 str(r["raise"][1])))
+                except Exception:       # noqa: BLE001 - the oracle's business
+                    pass
             m = run_model(tmpl, plan, hcfg)
             stats["plans"] += 1
             stats["probe_calls"] += len(r["history"])
@@ -146,6 +155,25 @@ class TalCheck(CheckBase):
                 violations.append(v)
             if self.is_nontrivial(plan, r, m):
                 nontrivial.append(short_hash([src, plan, hcfg]))
+        # an exception is a record of *its* failure: what it says must not
+        # change because other renders failed afterwards
+        for pi, plan, hcfg, e, s0 in held:
+            try:
+                s1 = str(e)
+            except Exception as e2:     # noqa: BLE001
+                s1 = "str() raised %s" % type(e2).__name__
+            if s1 != s0:
+                violations.append({
+                    "kind": "message-changed-later",
+                    "sig": "message-changed-later",
+                    "detail": f"the exception raised by plan {pi} said "
+                              f"{s0[:300]!r} when it was raised and says "
+                              f"{s1[:300]!r} after {len(plans) - pi - 1} "
+                              f"further renders",
+                    "plan_index": pi, "plan": plan, "handler": hcfg,
+                    "needs_history": True})
+                log.add("late", pi)
+                break
         seen = set()
         uniq = []
         for v in violations:
@@ -169,6 +197,9 @@ class TalCheck(CheckBase):
                  max_tests: int = 400, max_seconds: float = 60.0) -> dict:
         # first pin the case to the single failing plan
         c = copy.deepcopy(case)
+        if violation.get("needs_history"):
+            # keep the plan list (made explicit), drop plans one by one
+            return self._minimise_history(c, violation, known_sigs)
         c["plans"] = [{"plan": violation["plan"],
                        "handler": violation["handler"]}]
         c.pop("plan_seed", None)
@@ -177,6 +208,46 @@ class TalCheck(CheckBase):
             return case
         return super().minimise(c, violation, known_sigs, max_tests,
                                 max_seconds)
+
+    def _minimise_history(self, c: dict, violation: dict, known_sigs) -> dict:
+        src_plans = None
+        if "plans" not in c:
+            self.quiesce()
+            tmpl = c["tmpl"]
+            if "files" in tmpl:
+                return c            # (multi-file sets: keep the seed form)
+            src, _ = serialise(tmpl["tree"], pretty=c.get("pretty", False))
+            template = self.compile(src)
+            src_plans = self.make_plans(c, tmpl, template)
+            c["plans"] = [{"plan": p, "handler": h} for p, h in src_plans]
+            c.pop("plan_seed", None)
+            c.pop("nplans", None)
+        if not self.still_fails(c, violation["sig"]):
+            return c
+        # delta-debug the plan list
+        plans = c["plans"]
+        n = 2
+        import time as _t
+        t0 = _t.time()
+        while len(plans) >= 2 and _t.time() - t0 < 40:
+            chunk = max(1, len(plans) // n)
+            reduced = False
+            for i in range(0, len(plans), chunk):
+                cand = plans[:i] + plans[i + chunk:]
+                if not cand:
+                    continue
+                d = dict(c, plans=cand)
+                if self.still_fails(d, violation["sig"]):
+                    plans = cand
+                    c = d
+                    n = max(n - 1, 2)
+                    reduced = True
+                    break
+            if not reduced:
+                if chunk == 1:
+                    break
+                n = min(n * 2, len(plans))
+        return c
 
     def shrink_candidates(self, case: dict):
         c = case
